@@ -60,6 +60,25 @@ pub fn worker(ctx: &mut WorkerCtx) {
             work.push((b1 + i, c.to_vec()));
         }
     });
+    // I/O, stores and moves around shifting at-most-once loops; loops around scans; idiom tokens
+    let bi = base;
+    base += spaces::space_i(3, &mut |i, c| {
+        if ctx.owns(bi + i) {
+            work.push((bi + i, c.to_vec()));
+        }
+    });
+    let bn = base;
+    base += spaces::space_n(false, 3, &mut |i, c| {
+        if ctx.owns(bn + i) {
+            work.push((bn + i, c.to_vec()));
+        }
+    });
+    let bb = base;
+    base += spaces::space_b(4, &mut |i, c| {
+        if ctx.owns(bb + i) {
+            work.push((bb + i, c.to_vec()));
+        }
+    });
     for (_, c) in spaces::space_k() {
         if ctx.owns(base) {
             work.push((base, c));
@@ -105,8 +124,12 @@ fn judge_program(ctx: &mut WorkerCtx, p: &Plan, code: &[u8]) {
                                 Act::Out(_) => {
                                     faults.push(Fault::At(i, OutFail::Zero));
                                     faults.push(Fault::At(i, OutFail::Err));
+                                    faults.push(Fault::At(i, OutFail::Interrupted));
                                 }
-                                Act::In => faults.push(Fault::At(i, OutFail::Err)),
+                                Act::In => {
+                                    faults.push(Fault::At(i, OutFail::Err));
+                                    faults.push(Fault::At(i, OutFail::Interrupted));
+                                }
                             }
                         }
                         if script.is_empty() && canon.trace.iter().take(64).any(|a| *a == Act::In) {
@@ -127,6 +150,7 @@ fn judge_program(ctx: &mut WorkerCtx, p: &Plan, code: &[u8]) {
                             let mode_name = match fault {
                                 Fault::At(i, OutFail::Zero) => format!("execute:fail@{i}:zero"),
                                 Fault::At(i, OutFail::Err) => format!("execute:fail@{i}:err"),
+                                Fault::At(i, OutFail::Interrupted) => format!("execute:fail@{i}:interrupted"),
                                 Fault::InputAbsent => "execute:noinput".to_string(),
                             };
                             let run = |mode: Mode| {
@@ -231,9 +255,9 @@ pub fn info(tier: Tier) -> CheckInfo {
         id: "C08",
         level: "fault_enumeration",
         rule: format!(
-            "Complete fault space up to the bound: every program of A(len<={}), S(1,{}) and K, every width, input choice tree depth {}, \
+            "Complete fault space up to the bound: every program of A(len<={}), S(1,{}), I(3) (loops around shifting at-most-once loops with I/O), N(3) (loops around scans), B(4) (idiom tokens) and K, every width, input choice tree depth {}, \
              all four backends, levels 0..3; for each canonical action index i < {} one run in which action i is the first failing one \
-             (an output refused with Ok(0), an output refused with Err, an input answered with Err) plus one run with no input object \
+             (an output refused with Ok(0), with Err, with Err(Interrupted) - the kind io::Write::write_all retries; an input answered with Err or Err(Interrupted)) plus one run with no input object \
              at all. Oracle: the log equals the canonical prefix up to and including the failing attempt, nothing is logged after it, \
              execute returns Ok without panic. A case is non-trivial by construction (it has at least one I/O action); distinct = \
              distinct (program,width,script,fault).",
